@@ -101,11 +101,11 @@ def run_timers(prop, tier, seed, cap=None, kcap=None):
     # key-reuse focused configurations: exhaustive, every final state exported
     focus = {
         "C07": ("long", "sub", "keysv", "long2", "minupd"),
-        "C08": ("long", "long2", "keysv", "sub", "minupd"),
-        "C09": ("r75", "long", "sub", "keysv", "minupd"),
-        "C10": ("keysf", "keysv", "long", "wrap0"),
+        "C08": ("long", "long2", "keysv", "sub", "minupd", "mindel"),
+        "C09": ("r75", "long", "sub", "keysv", "minupd", "mindel"),
+        "C10": ("keysf", "keysv", "long", "wrap0", "tie", "mindel"),
         "C19": ("near", "past", "keysf", "same"),
-    }.get(prop, ("keysf", "keysv", "long", "near", "sub", "long2", "r75", "past", "minupd", "same", "wrap0"))
+    }.get(prop, ("keysf", "keysv", "long", "near", "sub", "long2", "r75", "past", "minupd", "same", "wrap0", "tie", "mindel"))
     for kc in ["MCTimers_%s.cfg" % f for f in focus]:
         st, tr, bad, text = _tlc_mc("MCTimers.tla", kc, "tmk-%s" % prop)
         out["states"] += st
